@@ -26,7 +26,7 @@ notes = open(out + "/notes.md").read() if __import__("os").path.exists(out + "/n
 meta = {
   "seed": f"{id_}-{i}",
   "property_targeted": id_.split("-")[-1],
-  "origin": "independent sub-agent given only the property text and a scratch worktree" + (" (second round: asked for subtler changes)" if id_.startswith("R2-") else " (third round: subtle, two different mechanisms, one multi-threaded, one delayed)" if id_.startswith("R3-") else " (fourth round: three changes in different files, away from the obvious places)" if id_.startswith("R4-") else " (fifth round: mutation-style single-token / single-line edits that survive the suite)" if id_.startswith("R5-") else " (sixth round: plausible 5-25 line optimisation / robustness pull requests with a subtle flaw)" if id_.startswith("R6-") else " (seventh round: concurrency defects only, needing several context switches in a specific order)" if id_.startswith("R7-") else " (eighth round: triggered only by an unusual but valid configuration or input corner)" if id_.startswith("R8-") else " (ninth round: latent defects that show only four or more operations after the faulty step)" if id_.startswith("R9-") else ""),
+  "origin": "independent sub-agent given only the property text and a scratch worktree" + (" (second round: asked for subtler changes)" if id_.startswith("R2-") else " (third round: subtle, two different mechanisms, one multi-threaded, one delayed)" if id_.startswith("R3-") else " (fourth round: three changes in different files, away from the obvious places)" if id_.startswith("R4-") else " (fifth round: mutation-style single-token / single-line edits that survive the suite)" if id_.startswith("R5-") else " (sixth round: plausible 5-25 line optimisation / robustness pull requests with a subtle flaw)" if id_.startswith("R6-") else " (seventh round: concurrency defects only, needing several context switches in a specific order)" if id_.startswith("R7-") else " (eighth round: triggered only by an unusual but valid configuration or input corner)" if id_.startswith("R8-") else " (ninth round: latent defects that show only four or more operations after the faulty step)" if id_.startswith("R9-") else " (tenth round: co-location defects that need two different keys sharing something internal)" if id_.startswith("RA-") else ""),
   "change": json.load(open("/verif/seeded/summaries.json")).get(f"{id_}-{i}", {}).get("change"),
   "needs_to_manifest": json.load(open("/verif/seeded/summaries.json")).get(f"{id_}-{i}", {}).get("needs"),
   "confirmed": {
